@@ -296,11 +296,22 @@ def spec_for(sb, argv, dims, heap_pad=0):
     return spec
 
 
-def prepare(sb, files, out_rel, history, argv, workdir, graph_rel=None):
+def prepare(sb, files, out_rel, history, argv, workdir, graph_rel=None, ref_graph_names=()):
     """Restore the sandbox from the pristine world and lay down the output-dir history."""
     O.wipe(sb)
     O.materialise(files, sb)
     out = os.path.join(sb, out_rel)
+    if history in ("stale", "same") and graph_rel and not (graph_rel + "/").startswith(out_rel + "/"):
+        # a graph directory outside the output directory is never wiped by FORD: an earlier run of another
+        # project left files there, some with the very names this run writes (only those are compared)
+        gdir = os.path.join(sb, graph_rel)
+        os.makedirs(gdir, exist_ok=True)
+        with open(os.path.join(gdir, "module~~zz_other~~UsesGraph.gv"), "w") as f:
+            f.write("digraph stale_other {}\n")
+        for nm in ref_graph_names:
+            os.makedirs(os.path.dirname(os.path.join(gdir, nm)), exist_ok=True)
+            with open(os.path.join(gdir, nm), "w") as f:
+                f.write("stale content left by an earlier run of another project\n")
     if history == "absent":
         return None
     if history == "empty":
@@ -389,11 +400,15 @@ def locus(ref_dir, var_dir, dref, dvar):
     return "%s>%s" % (path_class(first), head), detail
 
 
-def run_variant(sb, files, argv, out_rel, graph_rel, dims, workdir, tag, keep_copy=None, heap_pad=0, shim=True):
-    prepare(sb, files, out_rel, dims["history"], argv, workdir, graph_rel)
+def run_variant(sb, files, argv, out_rel, graph_rel, dims, workdir, tag, keep_copy=None, heap_pad=0, shim=True, ref_digest=None):
+    gnames = [k[len("<graph_dir>/"):] for k in (ref_digest or {}) if k.startswith("<graph_dir>/") and (ref_digest or {})[k] != "D"]
+    prepare(sb, files, out_rel, dims["history"], argv, workdir, graph_rel, gnames)
     spec = spec_for(sb, argv, dims, heap_pad)
     r = O.run_cold(spec, workdir, hashseed=dims["hashseed"], tag=tag, shim=shim)
     d = observe(sb, out_rel, graph_rel)
+    if ref_digest is not None and dims["history"] in ("stale", "same"):
+        # in an external graph directory only the files this project writes are FORD's output
+        d = {k: v for k, v in d.items() if not k.startswith("<graph_dir>/") or k in ref_digest}
     if keep_copy:
         O.wipe(keep_copy)
         src = os.path.join(sb, out_rel)
@@ -431,7 +446,7 @@ def evaluate(case, seed, variants, workdir, want_ref_copy=True):
         out["simtime"] += r0["result"]["clock"]["advanced"]
     for v in variants:
         dims = v["dims"]
-        r, d = run_variant(sb, files, argv, out_rel, graph_rel, dims, wk, "var")
+        r, d = run_variant(sb, files, argv, out_rel, graph_rel, dims, wk, "var", ref_digest=d0)
         out["n"] += 1
         if dims["history"] == "same":
             out["n"] += 1
